@@ -13,7 +13,9 @@ def run(ctx):
     rnd.shuffle(progs)
     # programs run with the unit input here: the loop-nesting stream needs numeric inputs to terminate
     pool = [src for src, ast, root, stream in progs if len(src) < 120 and stream != 'loops']
-    fixed = ['5 + 5', '{ $ * 2 } <~ 4', '1 > 2 ?> 3 |> 4', '(1, :a = 2) . a', '{ !! ($ < 3) ?> $ |> ^~ $ + 1 } <~ 0', 'x && 1', '"ab" == "ab"', '1 [2] 3', '5 ; $ + 1']
+    # the first three: a symbol created at run time from text, then the same symbol written as a literal and turned back into
+    # text — what one program leaves in the object (a nameless symbol cell) must not change what a later one computes
+    fixed = ['"abc" ~# :x', ':abc ~# ""', '(:abc, :k) ~# ""', '5 + 5', '{ $ * 2 } <~ 4', '1 > 2 ?> 3 |> 4', '(1, :a = 2) . a', '{ !! ($ < 3) ?> $ |> ^~ $ + 1 } <~ 0', 'x && 1', '"ab" == "ab"', '1 [2] 3', '5 ; $ + 1']
     cases = []
     seqs = []
     def add_seq(store, srcs, interleave):
